@@ -405,7 +405,7 @@ func c05TwoConfigs(tier string) []c05Two {
 	out := []c05Two{
 		{c05Prefix, false, "eager", w3, 1, false},
 		{"/r/", false, "eager", w1b, 1, false}, // B watches a superset: a batch holds events A drops and B wants
-		{c05Prefix, false, "eager", w1b, 1, true},
+		{c05Prefix, false, "eager", [][]wop{{wCreateX, wCreateY}}, 1, true},
 	}
 	if tier == "thorough" {
 		out = append(out,
